@@ -160,8 +160,16 @@ def run_programs(prop, name, progs, profile, ctx_vars=None, ctx_fns=None, pre=()
             out.append(("norecord", "", None, None, None))
             continue
         if "a" in want and rec.get("p") == "ok" and rec.get("ast") != p["tree"]:
-            out.append(("skip-c02", "parsed tree differs from the generated one", rec, None, None))
-            continue
+            # the engine's tree differs from the generated one. If the reference parser reads the text differently too, the
+            # generator/renderer is at fault (skip). Otherwise the text is still judged by what it means: a wrong grouping
+            # that happens to give the same outcome is C02's business, a different outcome is a violation here as well.
+            try:
+                rt = ref.rparse(ref.rtok(p["text"], (model or {}).get("table", ref.BUILTINS)), (model or {}).get("table", ref.BUILTINS))
+            except (ref.Abstain, ref.LexError, ref.ParseError):
+                rt = None
+            if rt != p["tree"]:
+                out.append(("skip-c02", "parsed tree differs from the generated one", rec, None, None))
+                continue
         ctx = dict(base_ctx)
         ctx.update(fn_ctx)
         for k, v in (p.get("vars") or {}).items():
